@@ -1086,6 +1086,16 @@ class _Reducer:
                 y = ast.copy_location(ast.Expr(value=ast.Yield(value=g.elt)), st)
                 return self.block(self._loops(g, [y], st))
             return [st]
+        # n += <boolean expression>  /  n = n + <boolean expression>   ->   if <expression>: n += 1
+        if isinstance(st, ast.AugAssign) and isinstance(st.op, ast.Add) and isinstance(st.target, ast.Name) and _is_bool_expr(st.value):
+            inc = ast.copy_location(ast.AugAssign(target=st.target, op=ast.Add(), value=ast.Constant(value=1)), st)
+            return self.block([ast.copy_location(ast.If(test=st.value, body=[inc], orelse=[]), st)])
+        if isinstance(st, ast.Assign) and len(st.targets) == 1 and isinstance(st.targets[0], ast.Name) and isinstance(st.value, ast.BinOp) and isinstance(st.value.op, ast.Add):
+            l, r = st.value.left, st.value.right
+            other = r if (isinstance(l, ast.Name) and l.id == st.targets[0].id) else (l if (isinstance(r, ast.Name) and r.id == st.targets[0].id) else None)
+            if other is not None and _is_bool_expr(other):
+                inc = ast.copy_location(ast.AugAssign(target=ast.Name(id=st.targets[0].id, ctx=ast.Store()), op=ast.Add(), value=ast.Constant(value=1)), st)
+                return self.block([ast.copy_location(ast.If(test=other, body=[inc], orelse=[]), st)])
         if isinstance(st, (ast.Assign, ast.AnnAssign, ast.AugAssign, ast.Return, ast.Expr)):
             v = getattr(st, "value", None)
             if v is None:
